@@ -65,9 +65,13 @@ type actor struct {
 type Step struct {
 	Pick int `json:"pick"`
 	Out  int `json:"out"`
+	// Hold: while this Prepare call is released the controller holds Mux.RLock (a reader in the
+	// middle of a lookup), so that the preparer queues for the write lock; dropped once nothing moves
+	Hold bool `json:"hold,omitempty"`
 }
 
 type controller struct {
+	mux     *sync.RWMutex // the cache's Mux (exported field of PreparedStmtDB)
 	mu      sync.Mutex
 	actors  []*actor
 	trace   []Ev
@@ -228,10 +232,18 @@ func (c *controller) run(script []Step) {
 			a.execDone, a.execOut = true, out
 			c.log(Ev{K: "execret", T: a.id, O: []string{"ok", "bad", "err"}[out]})
 		}
+		hold := st.Hold && a.status == stParkPrep && c.mux != nil
 		a.status = stRunning
 		c.version++
 		c.mu.Unlock()
+		if hold {
+			c.mux.RLock()
+		}
 		a.wake <- out
+		if hold {
+			c.settle()
+			c.mux.RUnlock()
+		}
 		idleSince = time.Now()
 	}
 }
